@@ -505,7 +505,9 @@ PROPS['C11'] = {
     'modules': ['IpcModel.Props.C11'],
     'theorems': ['C11.C11_own', 'C11.C11_restore', 'C11.C11_close_once', 'Ledger.inv_step', 'Ledger.roots_coincide', 'C11.C11_shape', 'C11.C11_set_add_never_orphans'],
     'scenarios': plus(world_scen(['default'], 300, 6000), res_scen(400, 8000),
-                      lambda tier, seed: [{'build': 'memfd', 'args': ['res', '--seed', str(seed + 5), '--n', str(2000 if tier == 'thorough' else 150), '--tier', tier]}]),
+                      lambda tier, seed: [{'build': 'memfd', 'args': ['res', '--seed', str(seed + 5), '--n', str(2000 if tier == 'thorough' else 150), '--tier', tier]}],
+                      # descriptors that arrived with a message whose sender died mid-send (discarded by the receiver) must be closed too
+                      lambda tier, seed: [{'args': ['crash', '--shape', str(i), '--tier', tier]} for i in ((1, 2, 5) if tier == 'thorough' else (1,))]),
     'builds': ['default', 'memfd'],
     'search': search_world,
     'rule': ('world: seeded single-threaded programs of ~40 public-API operations over up to 6 channels (create, clone, drop, send small/multi-packet with embedded senders / '
